@@ -125,57 +125,62 @@ Definition sym_of_ty_head (t : ty) : option sym :=
   match t with TBase b => Some (SB b) | TSym c => Some (SC c) | _ => None end.
 
 (* Grammar.register_type.  [fuel] bounds the recursion depth (every non-trivial call registers a new
-   symbol before recursing, so depth <= #symbols * nesting). *)
+   symbol before recursing, so depth <= #symbols * nesting).  The loops of the method are separate
+   definitions parameterised by the recursive call [rg]. *)
+Fixpoint reg_list (rg : ty -> rstate -> res rstate) (ts : list ty) (s : rstate) : res rstate :=
+  match ts with [] => Ok s | x :: r => let* s' := rg x s in reg_list rg r s' end.
+
+(* for st in considered_subtypes: if issubclass(st, ty): register_type(st) *)
+Fixpoint reg_subs (rg : ty -> rstate -> res rstate) (d : decl) (sy : sym) (l : list nat) (s : rstate) : res rstate :=
+  match l with
+  | [] => Ok s
+  | st :: r =>
+      let* s' := (match sy with
+                  | SC c => if subclass d st c then rg (TSym st) s else Ok s
+                  | SB _ => Ok s
+                  end) in
+      reg_subs rg d sy r s'
+  end.
+
+(* parent = ty.mro()[1]; register it and record the production parent -> ty *)
+Definition reg_parent (rg : ty -> rstate -> res rstate) (d : decl) (sy : sym) (s1 : rstate) : res rstate :=
+  match sy with
+  | SB _ => Ok s1
+  | SC c =>
+      match get_cls d c with
+      | None => Err KeyError
+      | Some k =>
+          match c_parent k with
+          | None => Ok s1
+          | Some p =>
+              let* s' := rg (TSym p) s1 in
+              if is_abstract d (SC p)
+              then Ok (mkR (r_nodes s') (add_alt (r_alts s') p c) (r_term s') (r_nonterm s'))
+              else Err OtherError   (* alternative on a non-abstract class *)
+          end
+      end
+  end.
+
+Definition reg_new (rg : ty -> rstate -> res rstate) (d : decl) (sy : sym) (s : rstate) : res rstate :=
+  let s1 := mkR (r_nodes s ++ [sy]) (r_alts s) (r_term s) (r_nonterm s) in
+  let* s2 := reg_parent rg d sy s1 in
+  let abstract := is_abstract d sy in
+  let flds := if abstract then [] else fields_of d sy in
+  let* s3 := reg_list rg flds s2 in
+  let* s4 := reg_subs rg d sy (d_considered d) s3 in
+  let terminal := negb abstract && (match flds with [] => true | _ => false end) in
+  Ok (if terminal then mkR (r_nodes s4) (r_alts s4) (r_term s4 ++ [sy]) (r_nonterm s4)
+      else mkR (r_nodes s4) (r_alts s4) (r_term s4) (r_nonterm s4 ++ [sy])).
+
 Fixpoint reg (fuel : nat) (d : decl) (t : ty) (s : rstate) : res rstate :=
   match fuel with
   | O => Err OutOfFuel
   | S f =>
-      let fold := (fix go (ts : list ty) (s : rstate) : res rstate :=
-                     match ts with [] => Ok s | x :: r => let* s' := reg f d x s in go r s' end) in
       match t with
       | TList t' | TAnn t' _ => reg f d t' s
-      | TTuple ts | TUnion ts => fold ts s
-      | TBase _ | TSym _ =>
-          match sym_of_ty_head t with
-          | None => Ok s
-          | Some sy =>
-              if mem_sym sy (r_nodes s) then Ok s
-              else
-                let s1 := mkR (r_nodes s ++ [sy]) (r_alts s) (r_term s) (r_nonterm s) in
-                (* parent = ty.mro()[1] *)
-                let* s2 := (match sy with
-                            | SB _ => Ok s1
-                            | SC c =>
-                                match get_cls d c with
-                                | None => Err KeyError
-                                | Some k =>
-                                    match c_parent k with
-                                    | None => Ok s1
-                                    | Some p =>
-                                        let* s' := reg f d (TSym p) s1 in
-                                        if is_abstract d (SC p)
-                                        then Ok (mkR (r_nodes s') (add_alt (r_alts s') p c) (r_term s') (r_nonterm s'))
-                                        else Err OtherError   (* alternative on a non-abstract class *)
-                                    end
-                                end
-                            end) in
-                let abstract := is_abstract d sy in
-                let flds := if abstract then [] else fields_of d sy in
-                let* s3 := fold flds s2 in
-                let* s4 := (fix subs (l : list nat) (s : rstate) : res rstate :=
-                              match l with
-                              | [] => Ok s
-                              | st :: r =>
-                                  let* s' := (match sy with
-                                              | SC c => if subclass d st c then reg f d (TSym st) s else Ok s
-                                              | SB _ => Ok s
-                                              end) in
-                                  subs r s'
-                              end) (d_considered d) s3 in
-                let terminal := negb abstract && (match flds with [] => true | _ => false end) in
-                Ok (if terminal then mkR (r_nodes s4) (r_alts s4) (r_term s4 ++ [sy]) (r_nonterm s4)
-                    else mkR (r_nodes s4) (r_alts s4) (r_term s4) (r_nonterm s4 ++ [sy]))
-          end
+      | TTuple ts | TUnion ts => reg_list (reg f d) ts s
+      | TBase b => if mem_sym (SB b) (r_nodes s) then Ok s else reg_new (reg f d) d (SB b) s
+      | TSym c => if mem_sym (SC c) (r_nodes s) then Ok s else reg_new (reg f d) d (SC c) s
       end
   end.
 
@@ -339,17 +344,24 @@ Definition analyse (d : decl) (order : list sym -> list sym) : res grammar :=
   let* m := dist_loop (4 + 2 * length (r_nodes r)) d r ord (dist_init r) in
   Ok (mkG d r m (filter (is_recursive d r) (r_nodes r))).
 
-(* extract_grammar: analyse; if any considered class carries a weight, normalise the weights,
-   store them on the classes and analyse again (update_weights re-runs __init__/register/preprocess) *)
+(* extract_grammar: analyse; if any considered or registered class carries a weight (after F32: not
+   only the considered ones), normalise the weights, store them on the classes and analyse again
+   (update_weights re-runs __init__/register/preprocess) *)
+Definition has_weight (d : decl) (c : nat) : bool :=
+  match get_cls d c with Some k => match c_weight k with Some _ => true | None => false end | None => false end.
+
+Definition weighted (d : decl) (r : rstate) : bool :=
+  existsb (has_weight d) (d_considered d) ||
+  existsb (fun s => match s with SC c => has_weight d c | SB _ => false end) (r_nodes r).
+
+Definition weights_in_unit (w : wmap) : bool :=
+  forallb (fun sw => Qle_bool 0 (snd sw) && Qle_bool (snd sw) 1) w.
+
 Definition extract (d : decl) (order : list sym -> list sym) : res grammar :=
   let* g := analyse d order in
-  (* any considered or registered class carries a weight (after F32: not only the considered ones) *)
-  let has_w := fun c => match get_cls d c with Some k => match c_weight k with Some _ => true | None => false end | None => false end in
-  let weighted := existsb has_w (d_considered d) ||
-                  existsb (fun s => match s with SC c => has_w c | SB _ => false end) (r_nodes (g_reg g)) in
-  if weighted then
+  if weighted d (g_reg g) then
     let* w := normalise (get_weights d (g_reg g)) (r_alts (g_reg g)) in
-    if forallb (fun sw => Qle_bool 0 (snd sw) && Qle_bool (snd sw) 1) w
+    if weights_in_unit w
     then analyse (store_weights d (g_reg g) w) order
     else Err AssertionError
   else Ok g.
